@@ -809,3 +809,11 @@ def run(tier, seed):
         "exponent is >= 0 (always the case for unitary matrices)",
         "SO(3) homomorphism is checked on Clifford+T words (unitary matrices), the ring laws of DyadicMatrix on general small matrices",
         "primes for _sqrt_modulo_p are selected by the harness (trial division); primality of every tested number is decided by TLC"])
+
+
+def replay(path, tier="quick", seed=0):
+    """Re-run the check and keep the violations with the recorded key (every case is regenerated from tier and seed)."""
+    rec = json.loads(open(path).read())
+    res = run(tier, seed)
+    res.violations = [v for v in res.violations if v.key == rec.get("key")]
+    return res
